@@ -49,7 +49,7 @@ def plan(tier):
 
 
 def run(tier, seed):
-    rep = check.run_configs('C02', plan(tier), seed, 150 if tier == 'quick' else 3000)
+    rep = check.run_configs('C02', plan(tier), seed, 420 if tier == 'quick' else 3000)
     if tier == 'thorough':      # all interleavings (sleep sets) of the smallest configurations
         rep.merge(check.run_por('C02', [C.cfg(2, C.CHAIN2, [a, 'ok'], 1) for a in ('ok', 'raise', 'badupdate', 'none')] + [C.cfg(2, C.CHAIN2S, ['fail', 'badstatus'], 1)], seed))
     return rep
